@@ -24,13 +24,11 @@ def _kv(node: list) -> Keyvalues:
     return Keyvalues(name, val)
 
 
-def build(s: dict) -> Material:
+def model(s: dict) -> dict:
+    """Plain-data description of the material a setting denotes."""
     params = [['$basetexture', 'tools/toolsskybox'], [s['pname'], s['pvalue']], ['%compilenodraw', '1']][:s['n_params']]
     if s['n_params'] == 1:
         params = [[s['pname'], s['pvalue']]]
-    mat = Material(s['shader'])
-    for name, value in params:
-        mat[name] = value
     leaf = [s['bleaf_name'], s['bleaf_value']]
     inner = {
         'leaf_and_nested': [leaf, ['nested', [['$a', '1']]]],
@@ -53,9 +51,35 @@ def build(s: dict) -> Material:
     proxies = [[s['pxname'], pinner], ['TextureScroll', [['textureScrollVar', '$basetexturetransform'],
                                                         ['textureScrollRate', '.25']]],
                [s['pxname'], [['again', '1']]]][:s['n_proxies']]
-    mat.blocks.extend(_kv(b) for b in blocks)
-    mat.proxies.extend(_kv(p) for p in proxies)
+    if len({name.casefold() for name, _ in params}) != len(params):
+        raise ValueError('harness: parameter names collide')
+    return {'shader': s['shader'], 'params': params, 'blocks': blocks, 'proxies': proxies}
+
+
+def construct(mdl: dict) -> Material:
+    mat = Material(mdl['shader'])
+    for name, value in mdl['params']:
+        mat[name] = value
+    mat.blocks.extend(_kv(b) for b in mdl['blocks'])
+    mat.proxies.extend(_kv(p) for p in mdl['proxies'])
     return mat
+
+
+def _exp_tree(node: list) -> tuple:
+    name, val = node
+    if isinstance(val, list):
+        return (name, [_exp_tree(c) for c in val])
+    return (name, ('str', val))
+
+
+def expected(mdl: dict) -> dict:
+    """What observe() must yield, computed from the plain data."""
+    return {
+        'shader': mdl['shader'],
+        'params': [(name, ('str', value)) for name, value in mdl['params']],
+        'blocks': [_exp_tree(b) for b in mdl['blocks']],
+        'proxies': [_exp_tree(p) for p in mdl['proxies']],
+    }
 
 
 # ---------------------------------------------------------------------------------------------
@@ -80,8 +104,15 @@ def observe(mat: Material) -> dict:
     }
 
 
-def roundtrip(mat: Material, res: Result, what: str) -> None:
-    want = observe(mat)
+def roundtrip(mat: Material, res: Result, what: str, want: Any = None) -> None:
+    if want is None:
+        want = observe(mat)
+    elif observe(mat) != want:
+        held = observe(mat)
+        diffs = [f'{k}: given {want[k]!r}\n   holds {held[k]!r}' for k in want if want[k] != held[k]]
+        res.fail('vmt_value_mismatch', f'{what}: the constructed Material does not hold the given value: '
+                 + '\n '.join(diffs)[:1100])
+        return
     buf = io.StringIO()
     try:
         mat.export(buf)
@@ -195,12 +226,13 @@ def inert(dev: dict) -> bool:
 
 def evaluate(setting: dict) -> Result:
     res = Result()
+    mdl = model(setting)
     try:
-        mat = build(setting)
+        mat = construct(mdl)
     except Exception as exc:  # noqa: BLE001
         res.fail('vmt_write_error', f'constructing Material raised {excs(exc)}')
         return res
-    roundtrip(mat, res, 'generated value')
+    roundtrip(mat, res, 'generated value', expected(mdl))
     return res
 
 
